@@ -408,10 +408,11 @@ def r9(ctx):
                 "Notify::notify_one / notify_waiters: a parked acceptor is woken for each request, not only for the first")
     ab = ctx.body(R, "turmoil::net::tcp::listener::TcpListener::accept::{closure#0}")
     if ab:
-        fam = [fb for fb in ctx.w.family(ab.id) if fb.is_async or fb.id == ab.id or "{closure" in fb.id]
-        parks = [(fb, bb, t) for fb in ctx.w.family(ab.id) for bb, t in fb.calls(re.compile(r"^tokio::sync::Notify::notified$"))]
+        # the wait loop may live in an async helper of the listener: every body of the listener module is looked at
+        mod = [fb for fb in sorted(ctx.w.bodies.values(), key=lambda b: b.id) if fb.id.startswith("turmoil::net::tcp::listener::")]
+        parks = [(fb, bb, t) for fb in mod for bb, t in fb.calls(re.compile(r"^tokio::sync::Notify::notified$"))]
         empty_edges = {}
-        for fb in ctx.w.family(ab.id):
+        for fb in mod:
             es = []
             for sbb, m, els, adt, pl in variant_edges(fb, lambda p: True):
                 if adt != "std::option::Option":
